@@ -61,7 +61,10 @@ def run(chk):
     entry_blocks = ([(A.S(90, f"w{k}"), A.S(91)) for k in range(10)] + [(A.S(90, str(k)),) for k in (2, 3, 4, 6)]
                     # a request through call_and_forward / multi_call followed by another send of the same sender:
                     # the request must be in the mailbox when the call returns (real-time order)
-                    + [(A.S(90, str(k)), A.S(91)) for k in (7, 8, 9)])
+                    + [(A.S(90, str(k)), A.S(91)) for k in (7, 8, 9)]
+                    # serialized entry (ActorCell::send_serialized): Cast, Call whose reply receiver is already dropped,
+                    # Call whose caller still waits: accepted => handled exactly once
+                    + [(A.S(90, k), A.S(91)) for k in "scq"] + [(A.S(90, "c", [], [A.S(92, "c")]),)])
     for ns in (1, 2):
         for bs in entry_blocks:
             ex += A.gen_exhaustive(ns, 0, "plain", blocks=bs)
@@ -70,6 +73,8 @@ def run(chk):
             if ns == 3 and len(bs) == 2 and quick:
                 continue
             ex += A.gen_exhaustive(ns, 0, "plain", blocks=bs)
+    # remote-id target (spawn_linked_remote): serializable vs. non-serializable message types
+    ex += A.remote_exhaustive()
     res = A.run_scenarios(chk, build, ex, "C02e")
     verdicts(chk, res, "exhaustive", distinct)
     chk.count("exhaustive.scenarios", len(ex))
@@ -77,6 +82,7 @@ def run(chk):
 
     n_rand = (700 if quick else 8000) * factor
     rnd = [A.gen_random(chk.rng, "order" if i % 4 else "drain") for i in range(n_rand)]
+    rnd += [A.gen_remote(chk.rng) for _ in range(n_rand // 4)]
     res = A.run_scenarios(chk, build, rnd, "C02r")
     verdicts(chk, res, "random", distinct)
     chk.coverage["samples"].append(json.loads(A.describe(res[11])))
@@ -107,7 +113,9 @@ def run(chk):
         "atomic blocks (un-gated sends, stop, kill, drain, wrong-typed send, failing handler, self-sending handler; "
         "wrong-typed and correctly typed requests through every public entry point: ActorCell::send_message, "
         "ActorRef::<T>::from(cell).send_message / cast / call / call with timeout / call_and_forward, rpc::cast, rpc::call, "
-        "rpc::call_and_forward, rpc::multi_call); "
+        "rpc::call_and_forward, rpc::multi_call; ActorCell::send_serialized Cast / Call with dropped or live reply receiver); "
+        "remote-id target (spawn_linked_remote): all action sequences of length <= 3 over serializable / non-serializable "
+        "sends, drain, stop, run, plus seeded random ones; "
         "random: seeded structured scenarios (up to 3 parked threads, handler scripts with self-sends / drain / stop / kill, "
         "re-entrant sends from box_message, wrong type, failing box/handler); stress: 2..8 uncontrolled OS threads x 4..15 "
         "messages with a racing drain / stop / nothing (oracle only; mode 2 checks exactly-once while alive). "
